@@ -38,6 +38,14 @@ def scenarios(rep, tier, seed):
         if not S.materialise_pre(scn):
             continue
         scns.append(scn)
+    # C03 needs no symmetry: "for every metric".  Non-symmetric identifiers on positive data; only the C03 clause is consulted
+    # for these (the forest clauses of C01/C02 presuppose symmetric dissimilarities), no step replay.
+    for i in range(300 if thorough else 50):
+        met = ["pearson", "neyman", "kullback_leibler", "k_divergence", "statistic"][i % 5]
+        scn = S.random_float_scenario(rng, kind=("semi" if i % 4 == 3 else "sup"), metric=met, n=rng.randrange(3, 11), nu=(2 if i % 4 == 3 else 0), nq=rng.randrange(5, 12), positive=True, mode="metric")
+        scn["allow_asymmetric"] = True
+        scn["Q"] = scn["Q"] + list(scn["I_train"][:3])
+        scns.append(scn)
     return scns
 
 
